@@ -74,6 +74,9 @@ def check_layout(ctx, rule, res, only_functions=None, label=""):
             if not once(("unpack", kk, e["layout"], e["loop_order"])):
                 continue
             const_bounds = (e["lo"] in ("None",) or e.get("lo_poly") is not None) and (e["hi"] in ("None",) or e.get("hi_poly") is not None)
+            prefix = (e.get("lo_note") or "").startswith("prefix-sum") or (e.get("hi_note") or "").startswith("prefix-sum")
+            if e["axis"] == 0 and e["layout_how"] in (None, "stack", "vstack") and not prefix and "_differentiate" in e["function"]:
+                continue  # row-block (chunk) slicing of the cotangents: decided under C07
             if e["layout"] is None:
                 chunk = set(e.get("lo_origin") or []) | set(e.get("hi_origin") or [])
                 if chunk <= {"parallel_chunk_size", "tensors", "features", "len", "matrix#meta"} or const_bounds:
